@@ -31,6 +31,29 @@ def base_sampler(dom):
                 v = rng.uniform(0.5, 4.0, size=n)
             elif dom == 'small':
                 v = rng.uniform(-0.4, 0.4, size=n)
+            elif dom in ('wcperm', 'wcperm_pos', 'symrep', 'rankdef'):
+                m = shape[0]
+                if dom == 'symrep':
+                    # symmetric; every other call has an exactly repeated eigenvalue
+                    Qm, _ = np.linalg.qr(rng.normal(size=(m, m)))
+                    lam = np.cumsum(rng.uniform(0.5, 1.5, size=m))
+                    if rng.random() < 0.5 and m > 1:
+                        lam[1] = lam[0]
+                    v = (Qm * lam) @ Qm.T
+                    v = 0.5 * (v + v.T)
+                elif dom == 'rankdef':
+                    # tall/square matrix; every other call is rank deficient (last column = combination of the others)
+                    v = well_conditioned(rng, shape[0], shape[1])
+                    if rng.random() < 0.5 and shape[1] > 1:
+                        v[:, -1] = v[:, 0] * 0.5 - v[:, -2] if shape[1] > 2 else 2.0 * v[:, 0]
+                else:
+                    Am = well_conditioned(rng, m)
+                    Am = Am + np.diag(np.sign(np.diag(Am)) * 3.0 + (np.diag(Am) == 0) * 3.0)
+                    Am = Am[rng.permutation(m)]           # a different pivot pattern on every call (= per direction)
+                    if dom == 'wcperm_pos' and np.linalg.det(Am) < 0:
+                        Am[0] *= -1.0
+                    v = Am
+                return np.asarray(v, dtype=float).reshape(shape)
             else:
                 raise KeyError(dom)
         else:
